@@ -87,11 +87,13 @@ Qed.
 Definition centred (l : list lab) (h : nat) : list lab := firstn h l ++ LIn :: skipn h l.
 
 (* (i) max_depth = 0: 5-position window, every labelling of the 4 positions around an in-slice 0,
-   every U-turn predicate, both guards *)
-Definition check_md0 : bool :=
-  forall_labs 4 (fun l => forall_bools 4 (fun bs =>
-    stationary0 (win_get 2 (centred l 2)) (upred bs) true 0 1 && stationary0 (win_get 2 (centred l 2)) (upred bs) false 0 1)).
-Lemma check_md0_ok : check_md0 = true.
+   every U-turn predicate, both guards.
+   (The checked predicates are named constants so that the soundness lemmas instantiate syntactically: the
+   kernel -- and coqchk, which does not use the VM -- never has to convert the big computation again.) *)
+Definition md0g (l : list lab) (bs : list bool) : bool :=
+  stationary0 (win_get 2 (centred l 2)) (upred bs) true 0 1 && stationary0 (win_get 2 (centred l 2)) (upred bs) false 0 1.
+Definition md0f (l : list lab) : bool := forall_bools 4 (md0g l).
+Lemma check_md0_ok : forall_labs 4 md0f = true.
 Proof. vm_compute. reflexivity. Qed.
 
 Theorem stationary_md0 : forall (l : list lab) (bs : list bool) (guard : bool),
@@ -99,9 +101,8 @@ Theorem stationary_md0 : forall (l : list lab) (bs : list bool) (guard : bool),
   (colsum (win_get 2 (centred l 2)) (upred bs) guard 0 1 == 1)%Q.
 Proof.
   intros l bs guard Hl Hb.
-  assert (H2 := check_md0_ok). unfold check_md0 in H2.
-  apply forall_labs_sound with (l := l) in H2; [|exact Hl].
-  apply forall_bools_sound with (l := bs) in H2; [|exact Hb].
+  pose proof (forall_labs_sound 4 md0f check_md0_ok l Hl) as H1. unfold md0f in H1.
+  pose proof (forall_bools_sound 4 (md0g l) H1 bs Hb) as H2. unfold md0g in H2.
   apply andb_true_iff in H2 as [Ht Hf]. unfold stationary0 in Ht, Hf.
   destruct guard; apply Qeq_bool_iff; assumption.
 Qed.
@@ -110,18 +111,43 @@ Qed.
 Definition md1_check (guard : bool) (l : list lab) : bool :=
   stationary0 (win_get 6 (centred l 6)) (fun _ _ => true) guard 1 3.
 
-(* (ii-b) every position in the slice, every U-turn predicate on adjacent end points
-   (the U-turn test of the depth-1 sub-tree and of the first doubling), 12 booleans *)
-Definition upred6 (bs : list bool) (a b : Z) : bool := if b - a =? 1 then nth (Z.to_nat (a + 6)) bs true else true.
-Definition check_md1_uturn : bool :=
-  forall_bools 12 (fun bs => stationary0 (fun _ => LIn) (upred6 bs) false 1 3).
-Lemma check_md1_uturn_ok : check_md1_uturn = true.
+(* (ii-a) every in/out labelling of the 12 positions around an in-slice 0 (no divergence), U-turn never firing *)
+Definition md1f (l : list lab) : bool := md1_check false l.
+Lemma check_md1_inout_ok : forall_labs2 12 md1f = true.
 Proof. vm_compute. reflexivity. Qed.
 
-Theorem stationary_md1_uturn : forall bs : list bool, length bs = 12%nat ->
-  (colsum (fun _ => LIn) (upred6 bs) false 1 3 == 1)%Q.
+Theorem stationary_md1_inout : forall l : list lab, length l = 12%nat -> Forall (fun a => a <> LDiv) l ->
+  (colsum (win_get 6 (centred l 6)) (fun _ _ => true) false 1 3 == 1)%Q.
 Proof.
-  intros bs Hb. assert (H1 := check_md1_uturn_ok). unfold check_md1_uturn in H1.
-  apply forall_bools_sound with (l := bs) in H1; [|exact Hb].
-  apply Qeq_bool_iff. exact H1.
+  intros l Hl Hd. pose proof (forall_labs2_sound 12 md1f check_md1_inout_ok l Hl Hd) as H1.
+  unfold md1f, md1_check, stationary0 in H1. apply Qeq_bool_iff. exact H1.
+Qed.
+
+(* (ii-a') every in/out/divergent labelling of the 6 positions -3..-1, 1..3 next to an in-slice 0, the outer
+   positions -6..-4 and 4..6 in the slice, U-turn never firing *)
+Definition inner3 (l : list lab) : list lab := [LIn; LIn; LIn] ++ l ++ [LIn; LIn; LIn].
+Definition md1i (l : list lab) : bool := md1_check false (inner3 l).
+Lemma check_md1_inner3_ok : forall_labs 6 md1i = true.
+Proof. vm_compute. reflexivity. Qed.
+
+Theorem stationary_md1_inner3 : forall l : list lab, length l = 6%nat ->
+  (colsum (win_get 6 (centred (inner3 l) 6)) (fun _ _ => true) false 1 3 == 1)%Q.
+Proof.
+  intros l Hl. pose proof (forall_labs_sound 6 md1i check_md1_inner3_ok l Hl) as H1.
+  unfold md1i, md1_check, stationary0 in H1. apply Qeq_bool_iff. exact H1.
+Qed.
+
+(* (ii-b) every position in the slice, every U-turn predicate on the adjacent end points (a, a+1) with -4 <= a <= 3
+   (the U-turn tests of the first doubling and of the depth-1 sub-trees next to the start), 8 booleans *)
+Definition upred4 (bs : list bool) (a b : Z) : bool :=
+  if (b - a =? 1) && (-4 <=? a) && (a <=? 3) then nth (Z.to_nat (a + 4)) bs true else true.
+Definition utf (bs : list bool) : bool := stationary0 (fun _ => LIn) (upred4 bs) false 1 3.
+Lemma check_md1_uturn_ok : forall_bools 8 utf = true.
+Proof. vm_compute. reflexivity. Qed.
+
+Theorem stationary_md1_uturn : forall bs : list bool, length bs = 8%nat ->
+  (colsum (fun _ => LIn) (upred4 bs) false 1 3 == 1)%Q.
+Proof.
+  intros bs Hb. pose proof (forall_bools_sound 8 utf check_md1_uturn_ok bs Hb) as H1.
+  unfold utf, stationary0 in H1. apply Qeq_bool_iff. exact H1.
 Qed.
